@@ -133,6 +133,18 @@ class ErrExc(Analysis):
             return "int", {0, -1}
         return "int", None
 
+    def _rhs_domain(self, rhs):
+        """domain of `v = rhs`: a call, or a conditional whose arms are calls"""
+        if rhs is None:
+            return None
+        if rhs.k == "CallExpr":
+            return self._domain(rhs)
+        if rhs.k == "ConditionalOperator":
+            a, b = self._rhs_domain(strip(rhs.kids[1])), self._rhs_domain(strip(rhs.kids[2]))
+            if a is not None and b is not None and a[0] == b[0]:
+                return a[0], (set(a[1]) | set(b[1])) if (a[1] and b[1]) else None
+        return None
+
     def _edge_class(self, kind, vals, op, cst, want):
         """'err' / 'ok' / 'mixed' for the edge on which (result OP cst) == want"""
         def holds(x):
@@ -182,8 +194,11 @@ class ErrExc(Analysis):
                 if lhs is None:
                     continue
                 st = sdel(st, "c:" + lhs)
-                if rhs is not None and rhs.k == "CallExpr":
-                    kind, vals = self._domain(rhs)
+                if sget(st, "xv") == lhs:
+                    st = sdel(st, "xv")
+                dom = self._rhs_domain(rhs)
+                if dom is not None:
+                    kind, vals = dom
                     st = sset(st, "c:" + lhs, (kind, tuple(sorted(vals)) if vals else None))
         if node.kind == "return":
             self._check_return(node, st)
@@ -265,14 +280,21 @@ class ErrExc(Analysis):
             return st
         cls = self._edge_class(dom[0], dom[1], op, cst, want)
         cur = sget(st, "x")
+        tp = path(tgt) if tgt.k != "CallExpr" else None
         if cls == "err":
-            return sset(st, "x", "yes")
+            return sdel(sset(st, "x", "yes"), "xv")
+        if cls == "ok" and cur == "maybe" and tp is not None and sget(st, "xv") == tp:
+            # a later test of the same result excludes its error values
+            return sdel(sset(st, "x", "no"), "xv")
         # "mixed" is meaningful only when the callee is known to have an
         # error value at all: a repository function whose return statements
         # are constants including a negative one, or a pointer result
         known = dom[0] == "ptr" or (dom[0] == "int" and dom[1] and min(dom[1]) < 0)
         if cls == "mixed" and known and cur != "yes":
-            return sset(st, "x", "maybe")
+            st = sset(st, "x", "maybe")
+            if tp is not None:
+                st = sset(st, "xv", tp)
+            return st
         return st
 
 
